@@ -114,24 +114,24 @@ func redirectImports(file string) {
 }
 
 type simResult struct {
-	Mode            string         `json:"mode"`
-	Scenarios       int            `json:"scenarios"`
-	Runs            int            `json:"runs"`
-	CrashRuns       int            `json:"crash_runs"`
-	ErrorRuns       int            `json:"error_runs"`
-	Reruns          int            `json:"reruns_after_crash"`
-	Tolerated       int            `json:"tolerated_failures"`
-	FaultFired      map[string]int `json:"fault_fired"`
-	StepKinds       map[string]int `json:"step_kinds"`
-	PreKinds        map[string]int `json:"pre_kinds"`
-	Distinct        []string       `json:"distinct"`
-	MaxSteps        int            `json:"max_steps"`
-	BaseFailures    int            `json:"base_failures"`
-	Violations      []simViolation `json:"violations"`
-	Samples         []any          `json:"samples"`
-	AgentsDoc       int            `json:"agents_documented"`
-	SkillFiles      int            `json:"skill_files"`
-	WallS           float64        `json:"wall_s"`
+	Mode         string         `json:"mode"`
+	Scenarios    int            `json:"scenarios"`
+	Runs         int            `json:"runs"`
+	CrashRuns    int            `json:"crash_runs"`
+	ErrorRuns    int            `json:"error_runs"`
+	Reruns       int            `json:"reruns_after_crash"`
+	Tolerated    int            `json:"tolerated_failures"`
+	FaultFired   map[string]int `json:"fault_fired"`
+	StepKinds    map[string]int `json:"step_kinds"`
+	PreKinds     map[string]int `json:"pre_kinds"`
+	Distinct     []string       `json:"distinct"`
+	MaxSteps     int            `json:"max_steps"`
+	BaseFailures int            `json:"base_failures"`
+	Violations   []simViolation `json:"violations"`
+	Samples      []any          `json:"samples"`
+	AgentsDoc    int            `json:"agents_documented"`
+	SkillFiles   int            `json:"skill_files"`
+	WallS        float64        `json:"wall_s"`
 }
 
 type simViolation struct {
@@ -302,27 +302,27 @@ func RunC15(tier string) int {
 		"rule": "one evaluation = one execution of the real AgentCmd.Run on the simulated disk with exactly one fault (crash before/after/mid-write, errno failure, short write) at one numbered filesystem step; " +
 			"per scenario (seeded agent x flags x pre-state x uid) EVERY step of the fault-free run is hit with EVERY fault variant (exhaustive per scenario, scenarios sampled). " +
 			"distinct = distinct hashes of (op log incl. injected fault and errors, final tree shape); all are non-trivial because the fault took effect in each counted run",
-		"samples":                     res.Samples,
-		"exhaustive":                  false,
-		"exhaustive_per_scenario":     true,
-		"scenarios":                   res.Scenarios,
-		"crash_runs":                  res.CrashRuns,
-		"error_runs":                  res.ErrorRuns,
-		"reruns_after_crash_verified": res.Reruns,
-		"tolerated_read_failures":     res.Tolerated,
+		"samples":                              res.Samples,
+		"exhaustive":                           false,
+		"exhaustive_per_scenario":              true,
+		"scenarios":                            res.Scenarios,
+		"crash_runs":                           res.CrashRuns,
+		"error_runs":                           res.ErrorRuns,
+		"reruns_after_crash_verified":          res.Reruns,
+		"tolerated_read_failures":              res.Tolerated,
 		"scenarios_whose_fault_free_run_fails": res.BaseFailures,
-		"faults_fired_by_kind":        res.FaultFired,
-		"steps_by_kind_in_fault_free_runs": res.StepKinds,
-		"pre_state_kinds":             res.PreKinds,
-		"max_steps_per_install":       res.MaxSteps,
-		"skill_files":                 res.SkillFiles,
-		"agents":                      res.AgentsDoc,
-		"runs_per_hour":               int(float64(res.Runs) / wall * 3600),
-		"simulated_time":              "not applicable: the installer has no clock; progress is counted in filesystem steps",
-		"real_components":             []string{"internal/llmsetup (Install, InstallFile, ResolvePath, ValidatePath, all agents, AgentCmd.Run)", "embed.FS with the real skill tree", "io/fs.WalkDir"},
-		"stub_components":             []string{"os -> verifsim/simos (in-memory POSIX-like disk)", "path/filepath.Abs -> simulated cwd"},
-		"toolchain":                   drv.GoVersion(),
-		"known_findings_observed":     out.Known,
+		"faults_fired_by_kind":                 res.FaultFired,
+		"steps_by_kind_in_fault_free_runs":     res.StepKinds,
+		"pre_state_kinds":                      res.PreKinds,
+		"max_steps_per_install":                res.MaxSteps,
+		"skill_files":                          res.SkillFiles,
+		"agents":                               res.AgentsDoc,
+		"runs_per_hour":                        int(float64(res.Runs) / wall * 3600),
+		"simulated_time":                       "not applicable: the installer has no clock; progress is counted in filesystem steps",
+		"real_components":                      []string{"internal/llmsetup (Install, InstallFile, ResolvePath, ValidatePath, all agents, AgentCmd.Run)", "embed.FS with the real skill tree", "io/fs.WalkDir"},
+		"stub_components":                      []string{"os -> verifsim/simos (in-memory POSIX-like disk)", "path/filepath.Abs -> simulated cwd"},
+		"toolchain":                            drv.GoVersion(),
+		"known_findings_observed":              out.Known,
 	}
 	if kernel != nil {
 		cov["real_kernel_cross_check"] = kernel
@@ -368,21 +368,21 @@ func RunC16(tier string) int {
 		"rule": "one evaluation = one fault-free installation (real AgentCmd.Run, simulated disk) checked for destination, completeness, byte identity, mode 0644 and containment by snapshot diff and op log; " +
 			"the 9 agents x 5 flag combinations x {fresh, older install + unrelated files} matrix is enumerated completely, further scenarios are seeded (cwd, $HOME, pre-state, uid, temp-name collision, install sequences). " +
 			"distinct = distinct (agent, has --path, --user, pre-state kinds, cwd, outcome) classes",
-		"samples":             res.Samples,
-		"exhaustive":          false,
-		"matrix_exhaustive":   true,
-		"scenarios":           res.Scenarios,
-		"pre_state_kinds":     res.PreKinds,
-		"steps_by_kind":       res.StepKinds,
-		"buggify_fired":       res.FaultFired,
-		"agents_documented":   res.AgentsDoc,
-		"skill_files":         res.SkillFiles,
-		"real_cli":            real,
-		"runs_per_hour":       int(float64(res.Runs) / wall * 3600),
-		"real_components":     []string{"internal/llmsetup complete", "kong wiring of LLMSetupCmd (struct tags) in the simulated runs; the real kessoku binary + kong + real filesystem in the CLI-surface runs"},
-		"stub_components":     []string{"os / path/filepath.Abs -> simulated disk (simulated runs only)"},
-		"documentation_source": "README.md 'Supported agents' line and 'Default installation paths' list, parsed at check time",
-		"toolchain":           drv.GoVersion(),
+		"samples":                 res.Samples,
+		"exhaustive":              false,
+		"matrix_exhaustive":       true,
+		"scenarios":               res.Scenarios,
+		"pre_state_kinds":         res.PreKinds,
+		"steps_by_kind":           res.StepKinds,
+		"buggify_fired":           res.FaultFired,
+		"agents_documented":       res.AgentsDoc,
+		"skill_files":             res.SkillFiles,
+		"real_cli":                real,
+		"runs_per_hour":           int(float64(res.Runs) / wall * 3600),
+		"real_components":         []string{"internal/llmsetup complete", "kong wiring of LLMSetupCmd (struct tags) in the simulated runs; the real kessoku binary + kong + real filesystem in the CLI-surface runs"},
+		"stub_components":         []string{"os / path/filepath.Abs -> simulated disk (simulated runs only)"},
+		"documentation_source":    "README.md 'Supported agents' line and 'Default installation paths' list, parsed at check time",
+		"toolchain":               drv.GoVersion(),
 		"known_findings_observed": out.Known,
 	}
 	code := out.Finish()
